@@ -721,8 +721,14 @@ func rulePlanPriority(c *Ctx) {
 						continue
 					}
 					if !derivesFrom(cl.Call.Value, func(v ssa.Value) bool {
-						if ia, ok := v.(*ssa.IndexAddr); ok && ia.X == ssa.Value(table) {
-							return true
+						if ia, ok := v.(*ssa.IndexAddr); ok {
+							if ia.X == ssa.Value(table) {
+								return true
+							}
+							// a slice literal: the backing array sliced whole
+							if sl, isSl := ia.X.(*ssa.Slice); isSl && sl.X == ssa.Value(table) && sl.Low == nil {
+								return true
+							}
 						}
 						if ix, ok := v.(*ssa.Index); ok {
 							if u, ok := ix.X.(*ssa.UnOp); ok && u.Op == token.MUL && u.X == ssa.Value(table) {
